@@ -218,22 +218,4 @@ theorem dateToString_model (ty : DateTy) (v : Int) :
 
 example : dateToString .date64 (-1) = .ok "1969-12-31".toList := by decide +kernel
 
-/-! ### message texts -/
-
-def verbatim : List String := ["Cannot convert interval style spans to a duration"]
-
-theorem gen_messages : verbatim.all (fun m => ConstantsTemporal.messages.any (fun t => decide (t = m))) = true := by decide +kernel
-
-/-- model texts the source continues or fills with a placeholder: the source text is `model prefix ++ middle ++ model rest` -/
-def withPlaceholder : List (String × String × String) :=
-  [("Cannot represent the leap second", " {v}", " as a time since midnight"),
-   ("Unsupported timestamp value", ": {ts}", ""),
-   ("Unsupported date value", ": {ts} days since the epoch are out of range", ""),
-   ("Timestamp", " '{date_time}'", " cannot be converted to nanoseconds"
-      ++ ". The dates that can be represented as nanoseconds are between 1677-09-21T00:12:44.0 and 2262-04-11T23:47:16.854775804.")]
-
-theorem gen_message_placeholders :
-    withPlaceholder.all (fun e => ConstantsTemporal.messages.any (fun t => decide (t = e.1 ++ e.2.1 ++ e.2.2))) = true := by
-  decide +kernel
-
 end SaModel.Props.ConstGenTemporal
